@@ -145,7 +145,9 @@ def call_sim(EoN, sim, G, sc, full):
             return "I" if status[node] == "S" else "R"
 
         def get_influence_set(G, node, status, parameters):
-            return {nbr for nbr in G.neighbors(node) if status[nbr] == "S"}
+            # a list in neighbour (insertion) order: a set of string nodes would make the USER's answer,
+            # and hence the order of re-rating, depend on the interpreter's hash seed (see DESIGN, C18)
+            return [nbr for nbr in G.neighbors(node) if status[nbr] == "S"]
         IC = ic_dict(G, kw)
         return EoN.Gillespie_complex_contagion(G, rate_function, transition_choice, get_influence_set, IC,
                                                return_statuses=("S", "I", "R"), tmin=kw["tmin"],
